@@ -94,6 +94,18 @@ Theorem C13_limit_divided : forall given n,
 Proof. exact limit_divided. Qed.
 Print Assumptions C13_limit_divided.
 
+(* FanoutCache.__init__ hands that share to a shard whenever size_limit is given and whenever the shard is new (its database
+   file does not exist before the open); a shard that exists and is opened without size_limit is handed nothing and keeps
+   the share stored in it (C18_fanout_reopen_settings). *)
+Theorem C13_limit_handed : forall given shard_exists n,
+  shard_limit_handed given shard_exists n =
+  match given, shard_exists with
+  | None, true => None
+  | _, _ => Some (shard_limit given n)
+  end.
+Proof. exact limit_handed. Qed.
+Print Assumptions C13_limit_handed.
+
 Theorem C13_limit_exact : forall l n, 0 < n -> (n | l) -> (shard_size_limit l n == inject_Z (l / n))%Q.
 Proof. exact limit_exact. Qed.
 Print Assumptions C13_limit_exact.
